@@ -48,6 +48,29 @@ theorem urgent_false_cw {cfg : Cfg} {s : State} (h : urgent cfg s = false) :
   intro ⟨a, b, c⟩
   simp [a, b, c] at h7
 
+/-- (the same as `first_stop_deadline`, counted from the moment the orchestrator began to stop its ensemble) -/
+theorem first_stop_deadline2 {cfg : Cfg} {s : State} {n to : Nat} (hB : InvB s) (hI : InvT cfg s)
+    (hu : urgent cfg s = false) (hd : deadlinesAllow cfg s n = true)
+    (hos : (s.st (.root .orchestrator)).isStopping = true) (hto : s.orchStopAt = some to) (hop : s.orchPing = false) :
+    s.now + n ≤ to + cfg.E := by
+  obtain ⟨_, _, _, u4, u5⟩ := urgent_false hu
+  obtain ⟨_, d2, _, _⟩ := deadlinesAllow_true hd
+  obtain ⟨i, hi, hk, hil⟩ := exists_live_stream ((u5 hos).2 hop)
+  have hci := (taskUrgent_false (u4 i hi)).1 hil
+  rcases hI.c2 to hto hos i hi hil with ⟨hc, _⟩ | hs | ⟨hk', _⟩
+  · rw [hci] at hc; cases hc
+  · rw [TS.isStopping_iff] at hs
+    obtain ⟨f', dl', hst'⟩ := hs
+    cases dl' with
+    | none => exact absurd hst' (hB.subSome i f')
+    | some d' =>
+      have h1 := hI.d2S to hto hos i f' d' hi hk hst'
+      have h2 := d2 i hi
+      rw [hst'] at h2
+      have := dlAllows_stopping h2
+      omega
+  · exact absurd hk' hk
+
 /-- while the orchestrator stops the ensemble and time may pass, some ensemble task has a deadline that allows it -/
 theorem orch_stopping_deadline {cfg : Cfg} {s : State} {n to : Nat} (hB : InvB s) (hI : InvT cfg s)
     (hu : urgent cfg s = false) (hd : deadlinesAllow cfg s n = true)
@@ -55,20 +78,14 @@ theorem orch_stopping_deadline {cfg : Cfg} {s : State} {n to : Nat} (hB : InvB s
     s.now + n ≤ to + G cfg := by
   obtain ⟨u1, u2, u3, u4, u5⟩ := urgent_false hu
   obtain ⟨d1, d2, _, d4⟩ := deadlinesAllow_true hd
-  have hnl := u5 hos
-  have : ∃ i, i < s.nSubs ∧ (s.st (.sub i)).live = true := by
-    apply Classical.byContradiction
-    intro hcon
-    have : noLiveSub s = true := by
-      rw [noLiveSub_iff]
-      intro i hi
-      cases hl : (s.st (.sub i)).live with
-      | false => rfl
-      | true => exact absurd ⟨i, hi, hl⟩ hcon
-    rw [this] at hnl; cases hnl
-  obtain ⟨i, hi, hil⟩ := this
+  cases hop : s.orchPing with
+  | false =>
+    have := first_stop_deadline2 hB hI hu hd hos hto hop
+    unfold G; omega
+  | true =>
+  obtain ⟨i, hi, hil⟩ := exists_live_sub (u5 hos).1
   have hci := (taskUrgent_false (u4 i hi)).1 hil
-  rcases hI.c2 to hto hos i hi hil with ⟨hc, _⟩ | hs
+  rcases hI.c2 to hto hos i hi hil with ⟨hc, _⟩ | hs | ⟨_, hq | ⟨hc, _⟩⟩
   · rw [hci] at hc; cases hc
   · rw [TS.isStopping_iff] at hs
     obtain ⟨f', dl', hst'⟩ := hs
@@ -80,6 +97,8 @@ theorem orch_stopping_deadline {cfg : Cfg} {s : State} {n to : Nat} (hB : InvB s
       rw [hst'] at h2
       have := dlAllows_stopping h2
       omega
+  · rw [hop] at hq; cases hq
+  · rw [hci] at hc; cases hc
 
 theorem InvT.preserved_delay {cfg : Cfg} {s : State} {n : Nat} (hB : InvB s) (hW : InvW s) (hI : InvT cfg s)
     (hu : urgent cfg s = false) (hd : deadlinesAllow cfg s n = true) :
@@ -106,7 +125,7 @@ theorem InvT.preserved_delay {cfg : Cfg} {s : State} {n : Nat} (hB : InvB s) (hW
     | coreStopping p => simp [hsc] at u2
     | over p => simp [hsc, hl] at u2
     | _ => simp [hsc, scFailPath] at hp
-  refine ⟨?_, hI.whoSome, hI.orchAtSome, ?_, ?_, hI.d2, ?_, ?_, ?_⟩
+  refine ⟨?_, hI.whoSome, hI.orchAtSome, ?_, ?_, hI.d2, ?_, ?_, ?_, hI.d2S, ?_⟩
   · intro tf htf
     have := hI.tfNow tf htf
     show tf ≤ s.now + n
@@ -116,10 +135,12 @@ theorem InvT.preserved_delay {cfg : Cfg} {s : State} {n : Nat} (hB : InvB s) (hW
     show to ≤ s.now + n
     omega
   · intro to hto hos j hj hlive
-    rcases hI.c2 to hto hos j hj hlive with ⟨hc, _⟩ | hs
-    · have := (taskUrgent_false (u4 j hj)).1 hlive
-      rw [this] at hc; cases hc
-    · exact Or.inr hs
+    have hcj := (taskUrgent_false (u4 j hj)).1 hlive
+    rcases hI.c2 to hto hos j hj hlive with ⟨hc, _⟩ | hs | ⟨hk, hq | ⟨hc, _⟩⟩
+    · rw [hcj] at hc; cases hc
+    · exact Or.inr (Or.inl hs)
+    · exact Or.inr (Or.inr ⟨hk, Or.inl hq⟩)
+    · rw [hcj] at hc; cases hc
   · intro tf r hrt htf hwho
     rcases hI.whoRoot tf r hrt htf hwho with h | ⟨h1, h2, _⟩ | h | ⟨h1, h2, h3⟩ | ⟨h1, h2, h3, h4⟩
     · exact Or.inl h
@@ -188,6 +209,8 @@ theorem InvT.preserved_delay {cfg : Cfg} {s : State} {n : Nat} (hB : InvB s) (hW
               have := orch_stopping_deadline hB hI hu hd h2 hto
               omega
           · exact (noEnded hrt _ h).elim
+  · intro to hto hos hop
+    exact first_stop_deadline2 hB hI hu hd hos hto hop
 
 /-- `InvT` is an invariant of COOPERATIVE runs. -/
 theorem InvT.preservedC {cfg : Cfg} {s s' : State} {l : Label} (hB : InvB s) (hC : InvC s) (hD : InvD cfg s)
